@@ -62,6 +62,7 @@ bit-for-bit by the C09 oracle on every drawn case).  The hypotheses quantify ove
 for floats they are idealisations (as every law bundle here that mentions arithmetic).
 -/
 import Kodama.Lemmas.NaturalitySafe
+import Kodama.Lemmas.AverageClamp
 namespace Kodama
 variable {α : Type} [Num α]
 
@@ -84,7 +85,9 @@ theorem C09_formulas {s : α → α} (L : ScaleLaws s) (m : Method) : UpdHom m s
   · exact L.ord.single
   · exact L.ord.complete
   · intro a b sa sb
-    simp only [Gen.average, ← L.add, ← L.mul_left, ← L.div]
+    -- the mean commutes with `s` (arithmetic laws); the clamp only compares and selects (`ord.lt`)
+    refine Gen.average_hom L.ord.lt a b sa sb ?_
+    simp only [Gen.averageMean, ← L.add, ← L.mul_left, ← L.div]
   · intro a b
     simp only [Gen.weighted, ← L.add, ← L.mul_left]
   · intro a b d sa sb sx
@@ -223,7 +226,7 @@ theorem C09_no_constants (I J : Num α) (hlt : I.lt = J.lt) (hadd : I.add = J.ad
   refine ⟨?_, ?_, ?_, ?_, ?_, ?_, ?_⟩
   · funext a b; simp only [Gen.single, hlt]
   · funext a b; simp only [Gen.complete, hlt]
-  · funext a b sa sb; simp only [Gen.average, hadd, hmul, hdiv, hofNat]
+  · funext a b sa sb; simp only [Gen.average, hlt, hadd, hmul, hdiv, hofNat]
   · funext a b; simp only [Gen.weighted, hadd, hmul, hhalf]
   · funext a b d sa sb sx; simp only [Gen.ward, hadd, hsub, hmul, hdiv, hofNat]
   · funext a b d sa sb; simp only [Gen.centroid, hadd, hsub, hmul, hdiv, hofNat]
